@@ -292,9 +292,6 @@ func (c *Checked) checkAcceptance(i int, op Op, res *OpResult, pred Pred) {
 			c.viol(i, "cycle-misclassified", what, "C05", "C13")
 		}
 	}
-	if res.Facts.Escaped {
-		c.viol(i, "api-panic", fmt.Sprintf("%s f%d panicked: %s", op.Kind, f.ID, res.Facts.EscText), "C14")
-	}
 	if v == VCycle {
 		c.probe("cycle_reported")
 		c.probe("reject_cycle")
@@ -511,7 +508,11 @@ func (c *Checked) checkErrorFacts(i int, op Op, res *OpResult, evs []Event) {
 	}
 	if f.Nil || f.Escaped {
 		if f.Escaped && f.EscInj[0] < 0 {
-			c.viol(i, "api-panic", fmt.Sprintf("%s panicked: %s", op.Kind, firstLine(f.EscText)), "C14")
+			what := op.Kind.String()
+			if op.Kind == OpMalformed {
+				what = op.Mal.String()
+			}
+			c.viol(i, "api-panic@"+digFrame(f.EscStack), fmt.Sprintf("%s panicked: %s", what, firstLine(f.EscText)), "C14")
 		}
 		return
 	}
@@ -528,7 +529,9 @@ func (c *Checked) checkErrorFacts(i int, op Op, res *OpResult, evs []Event) {
 	case f.RootPanic:
 		c.probe("err_root_panic")
 		if f.PanicInj[0] < 0 {
-			c.viol(i, "foreign-panic-recovered", f.Text, "C14", "C13")
+			// a panic that is not an injected one was recovered by
+			// RecoverFromPanics: the call did return an error
+			c.probe("foreign_panic_recovered")
 		}
 		if f.RootDigErr {
 			c.viol(i, "panic-error-is-dig-error", f.Text, "C13")
@@ -539,9 +542,23 @@ func (c *Checked) checkErrorFacts(i int, op Op, res *OpResult, evs []Event) {
 	default:
 		c.probe("err_dig_originated")
 		if !f.RootDigErr {
-			c.viol(i, "dig-failure-not-dig-error", fmt.Sprintf("%s returned an error that originates in dig but RootCause (%s) is not a dig.Error: %s", op.Kind, f.RootTypeStr, f.Text), "C13")
+			c.viol(i, "dig-failure-not-dig-error:"+f.RootTypeStr, fmt.Sprintf("%s returned an error that originates in dig but RootCause (%s) is not a dig.Error: %s", op.Kind, f.RootTypeStr, f.Text), "C13")
 		}
 	}
+}
+
+// digFrame names the innermost dig function on a panic's stack: it
+// identifies the defect and is stable under minimisation.
+func digFrame(stack string) string {
+	for _, l := range strings.Split(stack, "\n") {
+		if strings.HasPrefix(l, "go.uber.org/dig") && !strings.Contains(l, "dig.(*Scope).Invoke(") {
+			if i := strings.LastIndex(l, "("); i > 0 {
+				l = l[:i]
+			}
+			return strings.TrimPrefix(l, "go.uber.org/")
+		}
+	}
+	return "unknown"
 }
 
 func firstLine(s string) string {
